@@ -29,6 +29,12 @@ import (
 	gDetailT "verif/harness/gen/c02/detail_test"
 	gSubOfCk "verif/harness/gen/c02/subOfCk"
 	gSubOfCkT "verif/harness/gen/c02/subOfCk_test"
+	gExRo "verif/harness/gen/c02/exRo"
+	gExRoT "verif/harness/gen/c02/exRo_test"
+	gExCo "verif/harness/gen/c02/exCo"
+	gExCoT "verif/harness/gen/c02/exCo_test"
+	gExBoth "verif/harness/gen/c02/exBoth"
+	gExBothT "verif/harness/gen/c02/exBoth_test"
 )
 
 const generatedBindings = true
@@ -88,5 +94,20 @@ var bindings = map[string]binding{
 		newClient: func(c *restli.Client) any { return gSubOfCk.NewClient(c) },
 		register:  func(s restli.Server, r any) { gSubOfCk.RegisterResource(s, r.(gSubOfCk.Resource)) },
 		newMock:   func() any { return &gSubOfCkT.MockResource{} },
+	},
+	"exRo": {
+		newClient: func(c *restli.Client) any { return gExRo.NewClient(c) },
+		register:  func(s restli.Server, r any) { gExRo.RegisterResource(s, r.(gExRo.Resource)) },
+		newMock:   func() any { return &gExRoT.MockResource{} },
+	},
+	"exCo": {
+		newClient: func(c *restli.Client) any { return gExCo.NewClient(c) },
+		register:  func(s restli.Server, r any) { gExCo.RegisterResource(s, r.(gExCo.Resource)) },
+		newMock:   func() any { return &gExCoT.MockResource{} },
+	},
+	"exBoth": {
+		newClient: func(c *restli.Client) any { return gExBoth.NewClient(c) },
+		register:  func(s restli.Server, r any) { gExBoth.RegisterResource(s, r.(gExBoth.Resource)) },
+		newMock:   func() any { return &gExBothT.MockResource{} },
 	},
 }
